@@ -13,6 +13,13 @@ Theorem C02_table : forallb (key_in serverHopByHop) required_hop = true /\ foral
 Proof. split; reflexivity. Qed.
 Print Assumptions C02_table.
 
+(* the stand-alone proxy is served by http.Serve: no read, write or idle deadline and no size limit sits between a client
+   that uploads slowly (or a lot) and the agent that fetches its request *)
+Theorem C02_no_server_deadlines :
+  serverMainHTTPCalls = ["http.Serve"] /\ serverHTTPServerFields = [] /\ serverLimitCalls = [].
+Proof. repeat split; reflexivity. Qed.
+Print Assumptions C02_no_server_deadlines.
+
 (* the proxy's filter removes exactly the fields of its table, whatever their
    casing, and leaves every other field with its values in order *)
 Theorem C02_filter_exact : forall (fields : list (string * string)) k,
